@@ -301,15 +301,20 @@ def loader_facts(N, bs):
     return {"L": L, "len_dp": len(dp), "sampler_q": float(dp.batch_sampler.sample_rate), "loader_q": float(dp.sample_rate)}
 
 
-def engine_facts(N, bs, world=None):
+def engine_facts(N, bs, world=None, prior=None):
     """make_private on a loader over N samples with batch size bs: len(dp_loader), the rate handed
-    to the accountant (observed from one accounted step), expected_batch_size."""
+    to the accountant (observed from one accounted step), expected_batch_size.  `prior=(N0, bs0)`:
+    the SAME engine has first been used for a make_private on another dataset (engine reuse is legal:
+    cross-validation folds, a second model on one ledger) – the facts must be those of the current call."""
     from opacus import PrivacyEngine
+    pe = PrivacyEngine()
+    if prior is not None:
+        m0 = nn.Linear(2, 2)
+        pe.make_private(module=m0, optimizer=torch.optim.SGD(m0.parameters(), lr=0.0), data_loader=make_loader(*prior), noise_multiplier=1.0, max_grad_norm=1.0)
     dl = make_loader(N, bs)
     L = len(dl)
     m = nn.Linear(2, 2)
     opt = torch.optim.SGD(m.parameters(), lr=0.0)
-    pe = PrivacyEngine()
     m2, o2, dp = pe.make_private(module=m, optimizer=opt, data_loader=dl, noise_multiplier=1.0, max_grad_norm=1.0)
     for p in m2.parameters():
         p.grad_sample = torch.zeros(1, *p.shape)
@@ -322,11 +327,21 @@ def rate_oracle(case):
     """Property on the real engine: the probability the sampler uses is the rate handed to the
     accountant, an epoch has len(original loader) batches, and expected_batch_size is the integer part
     of q*N with q = 1/len(original loader) (exact rational arithmetic)."""
-    e = engine_facts(case["N"], case["bs"])
+    e = engine_facts(case["N"], case["bs"], prior=tuple(case["prior"]) if case.get("prior") else None)
     L, N = e["L"], e["N"]
+    d14 = e["len_dp"] == int(1 / (1 / L)) and e["sampler_q"] == 1 / L and e["acc_q"] == 1 / e["len_dp"]
+    if (e["len_dp"] != L or e["acc_q"] != e["sampler_q"]) and not d14:
+        # finding D14 has an exact signature (len(dp_loader) = int(1/(1/L)), sampler 1/L, accountant 1/len(dp_loader))
+        return ("C09:rate:inconsistent",
+                f"N={N}, batch_size={case['bs']}: len(loader)={L}, len(dp_loader)={e['len_dp']}; sampler includes with q={e['sampler_q']!r}, accountant is told q={e['acc_q']!r}", {"facts": e})
     if e["len_dp"] != L or e["acc_q"] != e["sampler_q"]:
         return ("C09:rate:accounted-rate-differs-from-sampler-rate",
                 f"N={N}, batch_size={case['bs']}: len(loader)={L} but len(dp_loader)={e['len_dp']}; sampler includes with q={e['sampler_q']!r}, accountant is told q={e['acc_q']!r}", {"facts": e})
+    if e["ebs"] != N // L and e["ebs"] != int(N * (1 / e["len_dp"])):
+        # not the binary64 truncation of finding D12 (which has this exact signature): something else
+        return ("C09:expected-batch-size:not-q-times-N",
+                f"N={N}, len(loader)={L}" + (f", engine first used on a dataset of {case['prior'][0]} samples" if case.get("prior") else "")
+                + f": expected_batch_size={e['ebs']}, the integer part of q*N is {N // L}", {"facts": e})
     if e["ebs"] != N // L:
         return ("C09:expected-batch-size:float-truncation",
                 f"N={N}, len(loader)={L}: expected_batch_size={e['ebs']} but the integer part of N*(1/L) is {N // L}", {"facts": e})
